@@ -214,6 +214,7 @@ class _Watchdog(threading.Thread):
         self.stop = False
         self.killed = []
         self.peak_kb = 0
+        self.peak_driver_kb = 0
 
     def _children(self):
         kids = {}
@@ -238,9 +239,34 @@ class _Watchdog(threading.Thread):
             frontier = nxt
         return [(p,) + kids[p] for p in desc]
 
+    @staticmethod
+    def _mem_available_kb():
+        try:
+            for l in open("/proc/meminfo"):
+                if l.startswith("MemAvailable:"):
+                    return int(l.split()[1])
+        except Exception:
+            pass
+        return 1 << 40
+
     def run(self):
         while not self.stop:
-            for pid, _, comm, rss in self._children():
+            kids = self._children()
+            # kani-driver keeps every CBMC message of a harness in memory (several GB for harnesses with long unwindings); when
+            # the machine runs out of memory the kernel kills the driver and ALL results are lost.  Sacrifice the largest cbmc
+            # (that harness becomes inconclusive) before that happens.
+            if self._mem_available_kb() < 3 * 1024 * 1024:
+                cb = sorted([(rss, pid) for pid, _, comm, rss in kids if comm.startswith("cbmc")], reverse=True)
+                if cb:
+                    try:
+                        os.kill(cb[0][1], signal.SIGKILL)
+                        self.killed.append((cb[0][1], cb[0][0]))
+                    except Exception:
+                        pass
+                    time.sleep(5)
+            for pid, _, comm, rss in kids:
+                if comm.startswith("kani-driver"):
+                    self.peak_driver_kb = max(self.peak_driver_kb, rss)
                 if comm.startswith("cbmc") or comm.startswith("goto-"):
                     self.peak_kb = max(self.peak_kb, rss)
                     if rss > RSS_LIMIT_KB:
@@ -252,7 +278,48 @@ class _Watchdog(threading.Thread):
             time.sleep(2)
 
 
-def run_harnesses(crate, harness_names, jobs=8, harness_timeout=600, total_timeout=3000, extra_flags=()):
+def run_harnesses(crate, harness_names, jobs=8, harness_timeout=600, total_timeout=3000, extra_flags=(), heavy=()):
+    """Run the harnesses in batches (one `cargo kani` invocation each) and merge the exported results.
+
+    kani-driver holds the CBMC output of every harness of an invocation in memory; harnesses listed in `heavy` (long unwindings: several
+    GB of driver memory each) run in their own batches with at most 3 jobs, the others in batches of FV_BATCH (default 40)."""
+    heavy = [h for h in harness_names if h in set(heavy)]
+    light = [h for h in harness_names if h not in set(heavy)]
+    bs = int(os.environ.get("FV_BATCH", "40"))
+    batches = [(light[i:i + bs], jobs) for i in range(0, len(light), bs)] + [(heavy[i:i + 6], min(jobs, 3)) for i in range(0, len(heavy), 6)]
+    t0 = time.time()
+    merged = None
+    res = dict(cmd="", out="", json=None, wall_s=0.0, timed_out=False, rc=0, killed=[], peak_rss_kb=0, peak_driver_kb=0, batches=len(batches))
+    for names, j in batches:
+        left = total_timeout - (time.time() - t0)
+        if left <= 0:
+            res["timed_out"] = True
+            break
+        r = _run_batch(crate, names, j, harness_timeout, left, extra_flags)
+        res["cmd"] = res["cmd"] or r["cmd"]
+        res["out"] += r["out"]
+        res["wall_s"] += r["wall_s"]
+        res["timed_out"] = res["timed_out"] or r["timed_out"]
+        res["rc"] = max(res["rc"], r["rc"] or 0)
+        res["killed"] += r["killed"]
+        res["peak_rss_kb"] = max(res["peak_rss_kb"], r["peak_rss_kb"])
+        res["peak_driver_kb"] = max(res["peak_driver_kb"], r["peak_driver_kb"])
+        js = r["json"]
+        if js is None:
+            continue
+        if merged is None:
+            merged = js
+        else:
+            for k in ("harness_metadata", "property_details", "cbmc"):
+                merged.setdefault(k, [])
+                merged[k] += js.get(k, [])
+            merged.setdefault("verification_results", {}).setdefault("results", [])
+            merged["verification_results"]["results"] += js.get("verification_results", {}).get("results", [])
+    res["json"] = merged
+    return res
+
+
+def _run_batch(crate, harness_names, jobs, harness_timeout, total_timeout, extra_flags=()):
     out_json = os.path.join(crate, "fv_out.json")
     if os.path.exists(out_json):
         os.remove(out_json)
@@ -282,7 +349,7 @@ def run_harnesses(crate, harness_names, jobs=8, harness_timeout=600, total_timeo
         except Exception:
             js = None
     return dict(cmd=" ".join(cmd), out=out, json=js, wall_s=wall, timed_out=timed_out, rc=p.returncode,
-                killed=wd.killed, peak_rss_kb=wd.peak_kb)
+                killed=wd.killed, peak_rss_kb=wd.peak_kb, peak_driver_kb=wd.peak_driver_kb)
 
 
 _INCONCLUSIVE_DESC = re.compile(r"unwinding assertion|unsupported|not currently supported|is not supported|recursion unwinding", re.I)
